@@ -279,6 +279,94 @@ def int_types_correspondence(ctx, exe, sc, thorough):
                % (len(sets), len(toks), len(flat_in)), bad == 0, "corr", "%d settings differ" % bad)
 
 
+def remove_returns_correspondence(ctx, exe, sc, thorough):
+    """model of remove_extra_returns() (RemoveReturns.lean, theorem RmRet_only_trailing_return) = the binary: with only
+    mod_remove_empty_return on, the chunks of dump PS that are gone in dump PB are exactly the ones the model deletes (decided from the
+    types, levels, parents and preprocessor flags of dump PS)"""
+    from vlib import cgen
+    rng = ctx.rng
+    texts = []
+    for i in range(40 if thorough else 10):
+        lang = "CPP" if i % 2 else "C"
+        texts.append((cgen.program(rng, lang, stats=ctx.hist, style="clean"), lang))
+    # idioms around `return;`: last statement, not last, behind a label, in nested blocks, in class members, lambdas, macros, comments between
+    fixed = """void a1(void) { g(); return; }
+void a2(int x) { if (x) return; g(); }
+void a3(int x) { if (x) goto out; g(); return;
+out: h(); }
+void a4(void) { return; g(); }
+void a5(void) { g(); return /* c */ ; // d
+}
+void a6(int x) { if (x) { g(); return; } h(); return; }
+void a7(int x) { while (x) { return; } }
+void a8(void) { { return; } }
+#define RET return;
+void a9(void) { g(); RET }
+void b1(void) { g();
+  return;
+
+}
+"""
+    texts.append((fixed, "C"))
+    texts.append((fixed + """class K { public: void m() { g(); return; } K() { return; } void n(); };
+void K::n() { g(); return; }
+namespace N { void f() { g(); return; } }
+void b2() { auto l = [] { g(); return; }; l(); return; }
+struct S { void m() { if (x) return; g(); } };
+""", "CPP"))
+    jobs = []
+    cfg = sc.cfg(None, {"mod_remove_empty_return": "true"})
+    for txt, lang in texts:
+        jobs.append(pipeline.Job("rmret", cfg, sc.write(txt, ".cpp" if lang == "CPP" else ".c"), lang, {"text": txt}))
+    pipeline.run_jobs(exe, jobs)
+    reqs, keep = [], []
+    for j in jobs:
+        if j.res["rc"] != 0:
+            continue
+        _, ps = unc.dump(j.res["trace"], "PS")
+        _, pb = unc.dump(j.res["trace"], "PB")
+        ps = [unc.parse_chunk(c) for c in ps]
+        pb = [unc.parse_chunk(c) for c in pb]
+        words = []
+        for c in ps:
+            t = {"RETURN": "r", "SEMICOLON": "s", "BRACE_CLOSE": "c", "NEWLINE": "n", "NL_CONT": "n"}.get(c["t"], "n" if c["t"].startswith("COMMENT") else "o")
+            pa = {"FUNC_DEF": "f", "FUNC_CLASS_DEF": "k"}.get(c["pt"], "o")
+            words.append("%s%s%d%d" % (t, pa, c["fl"] & 1, c["lv"]))
+        reqs.append("rmret.run " + " ".join(words))
+        keep.append((j, ps, pb))
+    ans = common.run_driver(reqs) if reqs else []
+    bad = nrem = 0
+    for (j, ps, pb), a in zip(keep, ans):
+        ctx.case("rmret:" + j.meta["text"][:4000], nontrivial=True)
+        kept = {int(x) for x in a.split()} if a != "bad-op" else None
+        if kept is None:
+            bad += 1
+            continue
+        # chunks of PS that carry text and are gone in PB (identity = original position and text)
+        have = collections.Counter((c["ol"], c["oc"], tuple(c["txt"])) for c in pb if c["txt"])
+        gone_real = []
+        for i, c in enumerate(ps):
+            if not c["txt"]:
+                continue
+            k = (c["ol"], c["oc"], tuple(c["txt"]))
+            if have[k] > 0:
+                have[k] -= 1
+            else:
+                gone_real.append(i)
+        gone_model = [i for i, c in enumerate(ps) if i not in kept and c["txt"]]
+        nrem += len(gone_real)
+        if gone_real != gone_model:
+            bad += 1
+            if bad <= 3:
+                d = sorted(set(gone_real) ^ set(gone_model))[:4]
+                ctx.violation("remove_extra_returns(): the binary deletes the chunks %s, the model (RemoveReturns.lean) %s; first difference at chunk %s (orig line %s)"
+                              % (gone_real[:12], gone_model[:12], d, [ps[i]["ol"] for i in d]),
+                              {"input_text": j.meta["text"], "lang": j.lang, "options": {"mod_remove_empty_return": "true"},
+                               "how": "hook build; dumps PS and PB of the trace; `rmret.run` of uncdrv on the PS chunk list"}, key=None, found_input=True)
+    ctx.oblige("correspondence: remove_extra_returns() model = binary on %d programs (%d chunks removed)" % (len(keep), nrem),
+               bad == 0 and len(keep) > 0 and nrem > 0, "corr", "%d programs differ" % bad)
+
+
 def run(ctx):
     ctx.cov["rule"] = ("one case = one run of the hook build on (input, configuration): input = generated C/C++/Java program plus a fixed block of "
                        "constructs the mod_ options act on, or a corpus file; configuration = one mod_ option singly, a random combination of "
@@ -313,6 +401,12 @@ def run(ctx):
     sc = pipeline.Scratch("c04")
     common.lean_extra(ctx, "UncModel.Props.IntTypes", ["IntTypes_only_int_edited", "IntTypes_untouched_without_keywords",
                                                         "IntTypes_preproc_boundary_witness"], namespace="Unc.IntTy")
+    common.lean_extra(ctx, "UncModel.Props.RemoveReturns", ["RmRet_only_trailing_return", "RmRet_old_removes_inner_return_witness"], namespace="Unc.RmRet")
+    try:
+        remove_returns_correspondence(ctx, exe, sc, thorough)
+    except Exception as e:
+        import traceback
+        ctx.oblige("remove_extra_returns correspondence ran", False, "internal", traceback.format_exc()[-1500:])
     try:
         int_types_correspondence(ctx, exe, sc, thorough)
     except Exception as e:
